@@ -120,10 +120,20 @@ func (n *Net) Party(name string) *sig.Party {
 }
 
 // AddTransport starts a real transport controller for identity idn on the node.
-func (nd *Node) AddTransport(name, idn string) *TC {
+func (nd *Node) AddTransport(name, idn string) *TC { return nd.addTransport(name, idn, false) }
+
+// AddTransportAnyPeer is AddTransport with an EMPTY configured peer id: the controller
+// looks up whatever peer the bus has (which must be idn, the only identity on that bus).
+func (nd *Node) AddTransportAnyPeer(name, idn string) *TC { return nd.addTransport(name, idn, true) }
+
+func (nd *Node) addTransport(name, idn string, anyPeer bool) *TC {
 	n := nd.N
 	p := n.Party(idn)
 	tc := &TC{Node: nd, Name: name, P: p}
+	lookup := p.ID
+	if anyPeer {
+		lookup = ""
+	}
 	n.uuid++
 	tptUUID := 1000 + n.uuid
 	ctor := func(ctx context.Context, le *logrus.Entry, pkey crypto.PrivKey, handler transport.TransportHandler) (transport.Transport, error) {
@@ -136,7 +146,7 @@ func (nd *Node) AddTransport(name, idn string) *TC {
 		return t, nil
 	}
 	info := controller.NewInfo("verif/simlink/"+name, semver.MustParse("0.0.1"), "simlink transport "+name)
-	tc.Ctrl = transport_controller.NewController(n.Log, nd.Bus, info, p.ID, false, ctor)
+	tc.Ctrl = transport_controller.NewController(n.Log, nd.Bus, info, lookup, false, ctor)
 	rel, err := nd.Bus.AddController(nd.ctx, tc.Ctrl, nil)
 	if err != nil {
 		panic(err)
